@@ -335,6 +335,11 @@ partial def loop (w : Nat) (h : IO.FS.Stream) (out : IO.FS.Stream) (s : Sys) : I
   else if l.startsWith "glue " then
     out.putStrLn (runGlue ((l.drop 5).toString.splitOn " "))
     loop w h out s
+  else if l == "panicinit" then
+    out.putStrLn "ok"; loop w h out s
+  else if l == "panicrecover" then
+    -- a panic of the embedding code that it catches itself touches nothing of the provider's
+    out.putStrLn "recovered"; loop w h out s
   else if l.startsWith "palloc " then
     -- the provider's allocator (what the property-name glue copies into): the sentinel for a
     -- zero-sized request, otherwise a fresh region of that many writable bytes
